@@ -2,6 +2,8 @@ import FiberModel.DriverUtil
 import FiberModel.C05.Spec
 import FiberModel.C05.Facts
 import FiberModel.C05.Sched
+import FiberModel.C05.Store
+import FiberModel.C05.Known
 /-
 Driver for C05. Case fields (after the id):
   mode(0..4)  hist(`;`-separated requests or `-`)  probe  freshObs  fullDiff(`,`-list or `-`)  implObs
@@ -131,7 +133,8 @@ def mixObs (hs : List Req) (p : Req) : String :=
   let ws := List.range 4
   let evss := ws.map fun w => workerEvents (1000 * (w + 1)) w reqs
   let evs := roundRobin ((evss.map List.length).foldl (· + ·) 0 + 1) evss
-  let fin := runSched facts CWorld.empty evs
+  -- the store-threaded schedule semantics (`Store.lean`): the four workers share one `App.sendfiles`
+  let fin := (runSchedS facts CWorldS.empty (evs.map EvS.ev)).c
   let obs := ws.map fun w => match obsOf fin (1000 * (w + 1) + hs.length) with
     | some o => renderObs o
     | none => "noresponse"
@@ -139,10 +142,49 @@ def mixObs (hs : List Req) (p : Req) : String :=
   | o :: rest => if rest.all (· == o) then o else "schedule-dependent:" ++ ";;".intercalate obs
   | [] => "noresponse"
 
+/-- the ops of a request's script, read off the case line (extended application: modes 5-7) -/
+def opsOf (req : String) : Option (String × List String) :=
+  match req.splitOn "|" with
+  | [_, _, _, _, bad, sc, _] => some (bad, if sc == "-" then [] else (sc.splitOn ",").map fun a => (a.splitOn ":").headD "")
+  | _ => none
+
+/-- Modes 5-7: the extended application (recover middleware, catch-alls `/+` and `/*`, RestartRouting / Next /
+    path override / panic / failing error handler, streamed bodies, HEAD, the response-side helpers). It is
+    OUTSIDE the Lean model: no model observation is computed (`modelObs := implObs`, tag `outside-model`);
+    the oracle - modelled vector, full vector and raw reply after the history vs on a fresh app - is the same
+    as for every other case. The harness has validated the vocabulary (`invalid` otherwise). -/
+def handleExt (id mode hist probe fresh diff impl : String) : Except String Verdict := do
+  let hs ← if hist == "-" then pure [] else
+    match (hist.splitOn ";").mapM opsOf with
+    | some l => pure l
+    | none => throw "outside-domain: history"
+  if hs.length > 12 then throw "outside-domain: history too long"
+  let some p := opsOf probe | throw "outside-domain: probe"
+  if p.1 != "0" then throw "outside-domain: malformed probe"
+  let diffs := if diff == "-" then [] else diff.splitOn ","
+  let served := hs.filter (·.1 == "0")
+  let feature (tag : String) (ops : List String) : List String :=
+    (if served.any (fun r => r.2.any ops.contains) then [s!"hist-{tag}"] else []) ++
+    (if p.2.any ops.contains then [s!"probe-{tag}"] else [])
+  let tags := ["outside-model", "ext-app", s!"hist{min hs.length 8}",
+      if mode == "5" then "ext-conn-per-request" else if mode == "6" then "ext-keepalive" else "ext-custom-ctx-keepalive"] ++
+    feature "restart" ["rr"] ++ feature "next" ["nx"] ++ feature "path-override" ["pa"] ++ feature "panic" ["pn"] ++
+    feature "errorhandler-fails" ["ee"] ++ feature "stream" ["ss", "su", "sw"] ++
+    feature "resp-helpers" ["st", "ty", "ap", "va", "li", "fm", "ck", "js", "at", "lc"] ++
+    (if !served.isEmpty then ["nt"] else [])
+  -- known finding K1 (Known.lean): inside its region AND only the parameter entries differ
+  let dropParams (o : String) : List String := (o.splitOn ";").filter fun f => !f.startsWith "params="
+  let onlyParams := dropParams fresh == dropParams impl &&
+    diffs.all fun d => d.startsWith "Params(" || d == "Bind.URI"
+  let spec := specViolation fresh impl diffs
+  let known := if spec.isSome && Known.K1 p.2 && onlyParams && !hs.isEmpty then some "K1" else none
+  pure { id := id, modelObs := impl, implObs := impl, spec := spec, known := known, tags := tags }
+
 def handleCase (f : List String) : Except String Verdict := do
   match f with
   | [id, mode, hist, probe, fresh, diff, impl] =>
     if impl == "invalid" then throw "outside-domain: request outside the structured vocabulary"
+    if ["5", "6", "7"].contains mode then return ← handleExt id mode hist probe fresh diff impl
     if !(["0", "1", "2", "3", "4"].contains mode) then throw "outside-domain: mode"
     let hs ← if hist == "-" then pure [] else
       match (hist.splitOn ";").mapM parseReq with
@@ -155,7 +197,9 @@ def handleCase (f : List String) : Except String Verdict := do
     -- model: one worker, so sync.Pool hands back the most recently released object
     let lifo : Pick := ⟨0, 0⟩
     let mo := if mode == "2" then mixObs hs p else
-      match probeAfter facts (hs.map fun r => (r, lifo)) p lifo with
+      -- store-threaded semantics (`Store.lean`): the probe's SendFile looks its configuration up among the
+      -- entries the history's SendFile calls left in `App.sendfiles`
+      match probeAfterS facts (hs.map fun r => (r, lifo)) p lifo with
       | some o => renderObs o
       | none => "noresponse"
     let served := hs.filter (·.bad == 0)
